@@ -43,6 +43,58 @@ def add_plural_keys(project, rng):
             tree.append([name, {"k": "plural", "rule": rule, "forms": forms}])
 
 
+FMT_KEYS = [
+    ("number", None, "num"), ("number", [["grouping_strategy", "never"]], "num"), ("number", [["grouping_strategy", "always"]], "num"),
+    ("number", [["grouping_strategy", "min2"]], "num"), ("currency", [["width", "narrow"], ["currency_code", "EUR"]], "num"), ("currency", None, "num"),
+    ("date", [["date_length", "long"]], "date"), ("date", None, "date"), ("time", None, "time"), ("time", [["time_length", "medium"]], "time"),
+    ("datetime", [["date_length", "short"], ["time_length", "short"]], "datetime"), ("list", [["list_type", "or"], ["list_style", "short"]], "list"), ("list", None, "list"),
+]
+FMT_VALUES = {
+    "num": ["1234.5f64", "-0.25f64", "1000000i64", "7u8"],
+    "date": ["leptos_i18n::reexports::icu::calendar::Date::try_new_iso_date(2024, 2, 29).unwrap().to_any()"],
+    "time": ["leptos_i18n::reexports::icu::calendar::Time::try_new(14, 34, 28, 0).unwrap()"],
+    "datetime": ["leptos_i18n::reexports::icu::calendar::DateTime::new(leptos_i18n::reexports::icu::calendar::Date::try_new_iso_date(1970, 1, 2).unwrap().to_any(), "
+                 "leptos_i18n::reexports::icu::calendar::Time::try_new(0, 5, 9, 0).unwrap())"],
+    "list": ['["A", "B", "C"]', '["x"]'],
+}
+
+
+def add_formatter_keys(project):
+    """One key per formatter family / option set, in every locale: the string, display and view flavours go through three
+    different run-time helpers per family (`*_to_formatter`, `*_to_display`, `*_to_view`)."""
+    cfg = project["cfg"]
+    ns = (cfg.get("namespaces") or [None])[0]
+    for (n, loc), tree in project["data"].items():
+        if n != ns:
+            continue
+        for i, (name, args, _) in enumerate(FMT_KEYS):
+            tree.append(["zz_fmt%d" % i, {"k": "tmpl", "segs": [{"s": "text", "v": "%s f%d: " % (loc, i)},
+                                                                {"s": "var", "name": "v", "fmt": {"name": name, "args": args}}, {"s": "text", "v": " ."}]}])
+
+
+def add_formatter_observations(crate, project, rng):
+    cfg = project["cfg"]
+    ns = (cfg.get("namespaces") or [None])[0]
+    locales = gen.effective_locales(cfg)
+    for i, (name, args, vkind) in enumerate(FMT_KEYS):
+        kp = e2e.key_path_tokens(ns, ["zz_fmt%d" % i])
+        for loc in rng.sample(locales, min(2, len(locales))):
+            lv = "Locale::" + e2e.ident(loc)
+            for val in FMT_VALUES[vkind]:
+                oid = crate.next_id
+                sval = val
+                b = ['    { let v = td_string!(%s, %s, v = %s); emit(%d, "td_string", &v.to_string()); }' % (lv, kp, sval, oid),
+                     '    { let v = td_display!(%s, %s, v = %s); emit(%d, "td_display", &v.to_string()); }' % (lv, kp, sval, oid),
+                     '    { let v = td!(%s, %s, v = move || %s); emit(%d, "td", &html(v)); }' % (lv, kp, val, oid),
+                     '    with_ctx(%s, |i18n| {' % lv,
+                     '        { let v = t!(i18n, %s, v = move || %s); emit(%d, "t", &html(v)); }' % (kp, val, oid),
+                     '        { let v = t_string!(i18n, %s, v = %s); emit(%d, "t_string", &v.to_string()); }' % (kp, sval, oid),
+                     '        { let v = tu_display!(i18n, %s, v = %s); emit(%d, "tu_display", &v.to_string()); }' % (kp, sval, oid),
+                     '    });']
+                crate.add("\n".join(b), {"ns": ns, "locale": loc, "effective": loc, "path": ["zz_fmt%d" % i], "args": {"v": val}, "counts": {}, "expected": None,
+                                         "rnodes": [("var", "v", name, args)], "flavours": ["td_string", "td_display", "td", "t", "t_string", "tu_display"], "depth": 0, "formatter": name})
+
+
 def add_observations(crate, project, ptable, rng, max_keys=40):
     cfg = project["cfg"]
     locales = gen.effective_locales(cfg)
@@ -52,6 +104,7 @@ def add_observations(crate, project, ptable, rng, max_keys=40):
     for ns in (cfg.get("namespaces") or [None]):
         for path, _ in model.leaf_paths(project["data"][(ns, default)]):
             keys.append((ns, path))
+    keys = [k for k in keys if not k[1][-1].startswith("zz_fmt")]
     rng.shuffle(keys)
     # deep paths first: they carry the scoping flavours
     keys.sort(key=lambda k: (-len(k[1]), not k[1][-1].startswith("long_")))
@@ -158,7 +211,10 @@ def judge(res, crate, obs):
                           {"project": gen.project_to_jsonable(crate.project), "expect": {k: v for k, v in exp.items() if k != "rnodes"}})
             continue
         base_text = base["v"]
-        res.count("baseline-agrees-with-model" if base_text == exp["expected"] else "baseline-differs-from-model(C01)")
+        if exp["expected"] is not None:
+            res.count("baseline-agrees-with-model" if base_text == exp["expected"] else "baseline-differs-from-model(C01)")
+        else:
+            res.count("formatter-key:" + exp["formatter"])
         for fl in exp["flavours"]:
             if fl == "td_string":
                 continue
@@ -198,11 +254,14 @@ def run(tier, seed, replay=None):
     projs = [projects.gen_valid_project(rng, cfg) for _ in range(n_crates)]
     for p in projs:
         add_plural_keys(p, rng)
+        add_formatter_keys(p)
     ptable = workload.plural_table_for(projs)
     crates = []
     for i, p in enumerate(projs):
         c = e2e.ProbeCrate("c02_%d" % i, p, fmt="json")
         add_observations(c, p, ptable, rng, max_keys=36 if tier == "quick" else 60)
+        if i % 4 == 0:
+            add_formatter_observations(c, p, rng)
         crates.append(c)
     root = e2e.write_workspace("c02", crates, seed=seed)
     status, secs, _ = e2e.build_workspace(root, crates)
